@@ -6,7 +6,7 @@ TAG=$$
 WT=/tmp/mwt-$TAG; VC=/tmp/mverif-$TAG
 git -C /repo worktree add -q --detach $WT HEAD || exit 2
 (cd /repo && git ls-files --others --exclude-standard | grep verif_hooks | while read f; do cp /repo/$f $WT/$f; done)
-trap 'git -C /repo worktree remove --force '$WT' 2>/dev/null; rm -rf '$VC EXIT
+trap 'git -C /repo worktree remove --force '$WT' 2>/dev/null; [ -n "$KEEP" ] || rm -rf '$VC EXIT
 rsync -a --exclude out --exclude replay --exclude evidence --exclude .git /verif/ $VC/
 if ! git -C $WT apply "$P"; then echo "patch does not apply"; exit 2; fi
 for id in "$@"; do
